@@ -147,16 +147,38 @@ Theorem C06_query_parameter_independent_of_neighbours : forall q k,
 Proof. exact requests_params_lookup. Qed.
 Print Assumptions C06_query_parameter_independent_of_neighbours.
 
-(* ---- coverage phase: Template._serialize keeps the quoted values in the shared template *)
-Theorem C06_coverage_requote_partial : forall name s n,
-  quote_stable s = true -> template_nth [] n [(name, sval s)] = Some [(name, sval s)].
-Proof. exact coverage_stable. Qed.
-Print Assumptions C06_coverage_requote_partial.
+(* ---- coverage phase: Template._serialize (path container) *)
+(* without a path style serializer the n-th case is the same function of the template as the first one ... *)
+Theorem C06_coverage_template_pure : forall defs n tmpl,
+  ser3 defs = [] -> template_nth defs n tmpl = template_nth defs 0 tmpl.
+Proof. exact coverage_pure. Qed.
+Print Assumptions C06_coverage_template_pure.
 
-Theorem C06_coverage_requote_refuted :
-  exists name s out1 out2 q2,
-    template_nth [] 0 [(name, sval s)] = Some out1 /\ obind (d_get name out1) as_str = quote_value s
-    /\ template_nth [] 1 [(name, sval s)] = Some out2 /\ d_get name out2 = Some (sval q2)
-    /\ pct_decode_form q2 <> Some s /\ pct_decode q2 <> Some s.
-Proof. exact coverage_requote_refuted. Qed.
-Print Assumptions C06_coverage_requote_refuted.
+(* ... and for every string and every case index it holds the quoted value, which decodes to the template value *)
+Theorem C06_coverage_case_roundtrip : forall name s n out,
+  template_nth [] n [(name, sval s)] = Some out ->
+  exists q, out = [(name, sval q)] /\ quote_value s = Some q /\ pct_decode_form q = Some s.
+Proof. exact coverage_case_roundtrip. Qed.
+Print Assumptions C06_coverage_case_roundtrip.
+
+(* sentinel for the repaired finding C06-F9: the in-place rule re-quotes, the present rule does not *)
+Theorem C06_coverage_requote_sentinel_refuted :
+  let tmpl := [([105;100], sval [97;32;98;37;99])] in
+  let q1 := [97;43;98;37;50;53;99] in
+  let q2 := [97;37;50;66;98;37;50;53;50;53;99] in
+  template_nth_inplace [] 0 tmpl = Some [([105;100], sval q1)]
+  /\ template_nth_inplace [] 1 tmpl = Some [([105;100], sval q2)]
+  /\ pct_decode_form q2 <> Some [97;32;98;37;99]
+  /\ template_nth [] 0 tmpl = Some [([105;100], sval q1)]
+  /\ template_nth [] 1 tmpl = Some [([105;100], sval q1)].
+Proof. exact coverage_requote_sentinel_refuted. Qed.
+Print Assumptions C06_coverage_requote_sentinel_refuted.
+
+(* the style serializer of the path container is still re-applied to the template by every case *)
+Theorem C06_coverage_serializer_reapplied_refuted :
+  let tmpl := [([105;100], VArr [PStr [97]; PStr [98]])] in
+  template_nth [label_arr_def] 0 tmpl = Some [([105;100], sval [46;97;37;50;67;98])]
+  /\ template_nth [label_arr_def] 1 tmpl = Some [([105;100], sval [46;46;97;37;50;67;98])]
+  /\ obind (pct_decode [46;46;97;37;50;67;98]) (dec_value (FLabelArr false) [105;100]) <> Some (CArr [[97]; [98]]).
+Proof. exact coverage_serializer_reapplied_refuted. Qed.
+Print Assumptions C06_coverage_serializer_reapplied_refuted.
